@@ -65,7 +65,8 @@ Combine(d, kind, es, m) ==
                     [] kind = "sig" -> CombineGroup(es, ValsSig(d, es, m)) = Sign(Secret(d.k), es[1].scheme, m).v]
 
 \* SecretKeyShare::sign: message augmentation is refused; a share is a non-zero scalar
-PartialSignRes(scheme) == IF scheme = "Aug" THEN Err("SigningError") ELSE Ok
+\* (a share whose scalar is zero never signs: core_sign refuses the zero key - C04)
+PartialSignRes(scheme, zero) == IF scheme = "Aug" THEN Err("SigningError") ELSE IF zero THEN Err("SigningError") ELSE Ok
 
 \* PublicKeyShare::verify / SignatureShare::verify: plain verification of the two payloads
 PartialVerify(d, i, j, scheme, msign, mver) ==
@@ -89,10 +90,10 @@ ACombine(kind, sch, es, mr) ==
                 ideal |-> IdealWhole(es, deal.t), guard |-> (IF kind = "sig" THEN SigGuard(es) ELSE CombineGuard(es)).t]
   /\ phase' = "judged" /\ UNCHANGED deal
 
-APartialSign(i, sch, mr) ==
+APartialSign(i, sch, mr, zero) ==
   /\ phase = "dealt"
-  /\ last' = [act |-> "PartialSign", k |-> deal.k, t |-> deal.t, n |-> deal.n, i |-> i, scheme |-> sch, msg |-> mr,
-              expect |-> ResOf(PartialSignRes(sch))]
+  /\ last' = [act |-> "PartialSign", k |-> deal.k, t |-> deal.t, n |-> deal.n, i |-> i, scheme |-> sch, msg |-> mr, zero |-> zero,
+              expect |-> ResOf(PartialSignRes(sch, zero))]
   /\ phase' = "judged" /\ UNCHANGED deal
 
 APartialVerify(i, j, sch, ms, mv) ==
@@ -134,7 +135,7 @@ Next ==
   \/ (phase = "idle" /\ \E k \in Keys, tn \in TN \cup BadParams : ASplit(k, tn[1], tn[2]))
   \/ (phase = "dealt" /\ \E kind \in {"sk", "pk"} : \E es \in EntrySeqs(deal.n, "", kind) : ACombine(kind, "", es, <<>>))
   \/ (phase = "dealt" /\ \E sch \in {"Basic", "Pop"}, mr \in MsgRs : \E es \in EntrySeqs(deal.n, sch, "sig") : ACombine("sig", sch, es, mr))
-  \/ (phase = "dealt" /\ \E i \in 1..deal.n, sch \in Schemes, mr \in MsgRs : APartialSign(i, sch, mr))
+  \/ (phase = "dealt" /\ \E i \in 1..deal.n, sch \in Schemes, mr \in MsgRs, zero \in BOOLEAN : APartialSign(i, sch, mr, zero))
   \/ (phase = "dealt" /\ \E i, j \in 1..deal.n, sch \in {"Basic", "Pop"}, ms, mv \in MsgRs : APartialVerify(i, j, sch, ms, mv))
   \/ (phase = "idle" /\ \E k \in Keys, tn \in BigTN : ASplitBig(k, tn[1], tn[2]))
   \/ (phase = "dealtbig" /\ \E kind \in {"sk", "pk"}, sh \in Shapes : ACombineBig(kind, "", sh, <<>>))
@@ -162,7 +163,7 @@ ErrorClasses ==
        \/ \E i \in 1..Len(last.entries) : last.entries[i].scheme # last.entries[1].scheme)
 ParamRange == Judged("Split") => ((last.expect.res = "Ok") <=> (2 <= last.t /\ last.t <= last.n /\ last.n <= 255))
 PartialExact == Judged("PartialVerify") => ((last.expect.res = "Ok") <=> last.ideal)
-AugRefused == Judged("PartialSign") => ((last.expect.res = "Err") <=> (last.scheme = "Aug"))
+AugRefused == Judged("PartialSign") => ((last.expect.res = "Err") <=> (last.scheme = "Aug" \/ last.zero))
 
 EmitVec == (Emit /\ last.act # "-") => PrintT(<<"VEC", ToJson([spec |-> "Threshold"] @@ last)>>)
 TypeOK == phase \in {"idle", "dealt", "dealtbig", "judged"}
